@@ -1,0 +1,599 @@
+//go:build verif
+
+// Contracts for the deductive checker in /verif (govc). Comment-only: no code is compiled
+// from this file, and it is ignored entirely without the "verif" build tag.
+//
+// val(x) is the mathematical integer held by an Int/Uint (or the raw 10^18-scaled integer of
+// a Dec); BIG is the heap of *big.Int cells. A heap that is not listed under `modifies` is
+// proved unchanged on every cell that existed at entry - this is "operands are never mutated".
+
+package types
+
+// ---------------------------------------------------------------- Int
+
+//@ func (i Int) BigInt() (r *big.Int)
+//@   props C18
+//@   requires i.i != nil
+//@   ensures r != nil && fresh(r) && BIG[r] == val(i)
+//@
+//@ func NewInt(n int64) (r Int)
+//@   props C18
+//@   ensures r.i != nil && fresh(r.i) && val(r) == n
+//@
+//@ func NewIntFromBigInt(i *big.Int) (r Int)
+//@   props C18
+//@   requires i != nil
+//@   panics string when abs(BIG[i]) >= pow2(255)
+//@   ensures r.i == i
+//@
+//@ func NewIntWithDecimal(n int64, dec int) (r Int)
+//@   props C18
+//@   requires dec <= 77
+//@   panics string when dec < 0 || abs(n * pow10f(dec)) >= pow2(255)
+//@   ensures r.i != nil && fresh(r.i) && val(r) == n * pow10f(dec)
+//@
+//@ func ZeroInt() (r Int)
+//@   props C18
+//@   ensures r.i != nil && fresh(r.i) && val(r) == 0
+//@
+//@ func OneInt() (r Int)
+//@   props C18
+//@   ensures r.i != nil && fresh(r.i) && val(r) == 1
+//@
+//@ func (i Int) Int64() (r int64)
+//@   props C18
+//@   requires i.i != nil
+//@   panics string when val(i) < 0 - 9223372036854775808 || val(i) > 9223372036854775807
+//@   ensures r == val(i)
+//@
+//@ func (i Int) IsInt64() (r bool)
+//@   props C18
+//@   requires i.i != nil
+//@   ensures r == (0 - 9223372036854775808 <= val(i) && val(i) <= 9223372036854775807)
+//@
+//@ func (i Int) IsZero() (r bool)
+//@   props C18
+//@   requires i.i != nil
+//@   ensures r == (val(i) == 0)
+//@
+//@ func (i Int) IsNegative() (r bool)
+//@   props C18
+//@   requires i.i != nil
+//@   ensures r == (val(i) < 0)
+//@
+//@ func (i Int) IsPositive() (r bool)
+//@   props C18
+//@   requires i.i != nil
+//@   ensures r == (val(i) > 0)
+//@
+//@ func (i Int) Sign() (r int)
+//@   props C18
+//@   requires i.i != nil
+//@   ensures (val(i) < 0 ==> r == 0 - 1) && (val(i) == 0 ==> r == 0) && (val(i) > 0 ==> r == 1)
+//@
+//@ func (i Int) Equal(i2 Int) (r bool)
+//@   props C18
+//@   requires i.i != nil && i2.i != nil
+//@   ensures r == (val(i) == val(i2))
+//@
+//@ func (i Int) GT(i2 Int) (r bool)
+//@   props C18
+//@   requires i.i != nil && i2.i != nil
+//@   ensures r == (val(i) > val(i2))
+//@
+//@ func (i Int) GTE(i2 Int) (r bool)
+//@   props C18
+//@   requires i.i != nil && i2.i != nil
+//@   ensures r == (val(i) >= val(i2))
+//@
+//@ func (i Int) LT(i2 Int) (r bool)
+//@   props C18
+//@   requires i.i != nil && i2.i != nil
+//@   ensures r == (val(i) < val(i2))
+//@
+//@ func (i Int) LTE(i2 Int) (r bool)
+//@   props C18
+//@   requires i.i != nil && i2.i != nil
+//@   ensures r == (val(i) <= val(i2))
+//@
+//@ func (i Int) Add(i2 Int) (res Int)
+//@   props C18
+//@   requires i.i != nil && i2.i != nil
+//@   panics string when abs(val(i) + val(i2)) >= pow2(255)
+//@   ensures res.i != nil && fresh(res.i) && val(res) == val(i) + val(i2)
+//@
+//@ func (i Int) AddRaw(i2 int64) (res Int)
+//@   props C18
+//@   requires i.i != nil
+//@   panics string when abs(val(i) + i2) >= pow2(255)
+//@   ensures res.i != nil && fresh(res.i) && val(res) == val(i) + i2
+//@
+//@ func (i Int) Sub(i2 Int) (res Int)
+//@   props C18
+//@   requires i.i != nil && i2.i != nil
+//@   panics string when abs(val(i) - val(i2)) >= pow2(255)
+//@   ensures res.i != nil && fresh(res.i) && val(res) == val(i) - val(i2)
+//@
+//@ func (i Int) SubRaw(i2 int64) (res Int)
+//@   props C18
+//@   requires i.i != nil
+//@   panics string when abs(val(i) - i2) >= pow2(255)
+//@   ensures res.i != nil && fresh(res.i) && val(res) == val(i) - i2
+//@
+//@ func (i Int) Mul(i2 Int) (res Int)
+//@   props C18
+//@   requires i.i != nil && i2.i != nil
+//@   requires abs(val(i)) < pow2(255) && abs(val(i2)) < pow2(255)
+//@   hint bitlen(val(i) * val(i2))
+//@   panics string when abs(val(i) * val(i2)) >= pow2(255)
+//@   ensures res.i != nil && fresh(res.i) && val(res) == val(i) * val(i2)
+//@
+//@ func (i Int) MulRaw(i2 int64) (res Int)
+//@   props C18
+//@   requires i.i != nil
+//@   requires abs(val(i)) < pow2(255)
+//@   hint bitlen(val(i) * i2)
+//@   panics string when abs(val(i) * i2) >= pow2(255)
+//@   ensures res.i != nil && fresh(res.i) && val(res) == val(i) * i2
+//@
+//@ func (i Int) Quo(i2 Int) (res Int)
+//@   props C18
+//@   requires i.i != nil && i2.i != nil
+//@   panics string when val(i2) == 0
+//@   ensures res.i != nil && fresh(res.i) && val(res) == val(i) / val(i2)
+//@
+//@ func (i Int) QuoRaw(i2 int64) (res Int)
+//@   props C18
+//@   requires i.i != nil
+//@   panics string when i2 == 0
+//@   ensures res.i != nil && fresh(res.i) && val(res) == val(i) / i2
+//@
+//@ func (i Int) Mod(i2 Int) (res Int)
+//@   props C18
+//@   requires i.i != nil && i2.i != nil
+//@   panics string when val(i2) == 0
+//@   ensures res.i != nil && fresh(res.i) && val(res) == emod(val(i), val(i2))
+//@
+//@ func (i Int) ModRaw(i2 int64) (res Int)
+//@   props C18
+//@   requires i.i != nil
+//@   panics string when i2 == 0
+//@   ensures res.i != nil && fresh(res.i) && val(res) == emod(val(i), i2)
+//@
+//@ func (i Int) Neg() (res Int)
+//@   props C18
+//@   requires i.i != nil
+//@   ensures res.i != nil && fresh(res.i) && val(res) == 0 - val(i)
+//@
+//@ func MinInt(i1, i2 Int) (r Int)
+//@   props C18
+//@   requires i1.i != nil && i2.i != nil
+//@   ensures r.i != nil && fresh(r.i) && val(r) == min(val(i1), val(i2))
+//@
+//@ func MaxInt(i, i2 Int) (r Int)
+//@   props C18
+//@   requires i.i != nil && i2.i != nil
+//@   ensures r.i != nil && fresh(r.i) && val(r) == max(val(i), val(i2))
+
+// ---------------------------------------------------------------- Uint  (range [0, 2^256))
+
+//@ func UintOverflow(i *big.Int) (err error)
+//@   props C18
+//@   requires i != nil
+//@   ensures (err == nil) == (0 <= BIG[i] && BIG[i] < pow2(256))
+//@
+//@ func checkNewUint(i *big.Int) (u Uint, err error)
+//@   props C18
+//@   requires i != nil
+//@   ensures (err == nil) == (0 <= BIG[i] && BIG[i] < pow2(256))
+//@   ensures err == nil ==> u.i == i
+//@
+//@ func NewUintFromBigInt(i *big.Int) (u Uint)
+//@   props C18
+//@   requires i != nil
+//@   panics when BIG[i] < 0 || BIG[i] >= pow2(256)
+//@   ensures u.i == i
+//@
+//@ func NewUint(n uint64) (u Uint)
+//@   props C18
+//@   ensures u.i != nil && fresh(u.i) && val(u) == n
+//@
+//@ func ZeroUint() (u Uint)
+//@   props C18
+//@   ensures u.i != nil && fresh(u.i) && val(u) == 0
+//@
+//@ func OneUint() (u Uint)
+//@   props C18
+//@   ensures u.i != nil && fresh(u.i) && val(u) == 1
+//@
+//@ func (u Uint) Uint64() (r uint64)
+//@   props C18
+//@   requires u.i != nil
+//@   panics string when val(u) < 0 || val(u) > 18446744073709551615
+//@   ensures r == val(u)
+//@
+//@ func (u Uint) IsZero() (r bool)
+//@   props C18
+//@   requires u.i != nil
+//@   ensures r == (val(u) == 0)
+//@
+//@ func (u Uint) Equal(u2 Uint) (r bool)
+//@   props C18
+//@   requires u.i != nil && u2.i != nil
+//@   ensures r == (val(u) == val(u2))
+//@
+//@ func (u Uint) GT(u2 Uint) (r bool)
+//@   props C18
+//@   requires u.i != nil && u2.i != nil
+//@   ensures r == (val(u) > val(u2))
+//@
+//@ func (u Uint) GTE(u2 Uint) (r bool)
+//@   props C18
+//@   requires u.i != nil && u2.i != nil
+//@   ensures r == (val(u) >= val(u2))
+//@
+//@ func (u Uint) LT(u2 Uint) (r bool)
+//@   props C18
+//@   requires u.i != nil && u2.i != nil
+//@   ensures r == (val(u) < val(u2))
+//@
+//@ func (u Uint) LTE(u2 Uint) (r bool)
+//@   props C18
+//@   requires u.i != nil && u2.i != nil
+//@   ensures r == (val(u) <= val(u2))
+//@
+//@ func (u Uint) Add(u2 Uint) (r Uint)
+//@   props C18
+//@   requires u.i != nil && u2.i != nil
+//@   panics when val(u) + val(u2) < 0 || val(u) + val(u2) >= pow2(256)
+//@   ensures r.i != nil && fresh(r.i) && val(r) == val(u) + val(u2)
+//@
+//@ func (u Uint) AddUint64(u2 uint64) (r Uint)
+//@   props C18
+//@   requires u.i != nil
+//@   panics when val(u) + u2 < 0 || val(u) + u2 >= pow2(256)
+//@   ensures r.i != nil && fresh(r.i) && val(r) == val(u) + u2
+//@
+//@ func (u Uint) Sub(u2 Uint) (r Uint)
+//@   props C18
+//@   requires u.i != nil && u2.i != nil
+//@   panics when val(u) - val(u2) < 0 || val(u) - val(u2) >= pow2(256)
+//@   ensures r.i != nil && fresh(r.i) && val(r) == val(u) - val(u2)
+//@
+//@ func (u Uint) SubUint64(u2 uint64) (r Uint)
+//@   props C18
+//@   requires u.i != nil
+//@   panics when val(u) - u2 < 0 || val(u) - u2 >= pow2(256)
+//@   ensures r.i != nil && fresh(r.i) && val(r) == val(u) - u2
+//@
+//@ func (u Uint) Mul(u2 Uint) (res Uint)
+//@   props C18
+//@   requires u.i != nil && u2.i != nil
+//@   panics when val(u) * val(u2) < 0 || val(u) * val(u2) >= pow2(256)
+//@   ensures res.i != nil && fresh(res.i) && val(res) == val(u) * val(u2)
+//@
+//@ func (u Uint) MulUint64(u2 uint64) (res Uint)
+//@   props C18
+//@   requires u.i != nil
+//@   panics when val(u) * u2 < 0 || val(u) * u2 >= pow2(256)
+//@   ensures res.i != nil && fresh(res.i) && val(res) == val(u) * u2
+//@
+//@ func (u Uint) Quo(u2 Uint) (res Uint)
+//@   props C18
+//@   requires u.i != nil && u2.i != nil
+//@   requires 0 <= val(u) && val(u) < pow2(256) && 0 <= val(u2)
+//@   panics when val(u2) == 0
+//@   ensures res.i != nil && fresh(res.i) && val(res) == val(u) / val(u2)
+//@
+//@ func (u Uint) QuoUint64(u2 uint64) (res Uint)
+//@   props C18
+//@   requires u.i != nil
+//@   requires 0 <= val(u) && val(u) < pow2(256)
+//@   panics when u2 == 0
+//@   ensures res.i != nil && fresh(res.i) && val(res) == val(u) / u2
+//@
+//@ func MinUint(u1, u2 Uint) (r Uint)
+//@   props C18
+//@   requires u1.i != nil && u2.i != nil
+//@   requires 0 <= val(u1) && val(u1) < pow2(256) && 0 <= val(u2) && val(u2) < pow2(256)
+//@   ensures r.i != nil && fresh(r.i) && val(r) == min(val(u1), val(u2))
+//@
+//@ func MaxUint(u1, u2 Uint) (r Uint)
+//@   props C18
+//@   requires u1.i != nil && u2.i != nil
+//@   requires 0 <= val(u1) && val(u1) < pow2(256) && 0 <= val(u2) && val(u2) < pow2(256)
+//@   ensures r.i != nil && fresh(r.i) && val(r) == max(val(u1), val(u2))
+
+// ---------------------------------------------------------------- Dec  (val = value * 10^18, |val| < 2^315)
+//
+// rhe(n,p): n/p rounded half to even (p > 0); rheq(n,d): the same for the exact rational n/d,
+// d != 0; rceil/rceilq: ceiling; "/" and "%" are Go's truncated division and remainder.
+
+//@ invariant decinv: precisionReuse != nil && BIG[precisionReuse] == pow10(18)
+//@   && fivePrecision != nil && BIG[fivePrecision] == 500000000000000000
+//@   && oneInt != nil && BIG[oneInt] == 1 && zeroInt != nil && BIG[zeroInt] == 0
+//@   && tenInt != nil && BIG[tenInt] == 10
+//@   && len(precisionMultipliers) == 19
+//@   && (forall k int :: 0 <= k && k <= 18 ==> precisionMultipliers[k] != nil && BIG[precisionMultipliers[k]] == pow10f(18 - k))
+
+//@ func precisionInt() (r *big.Int)
+//@   props C18
+//@   uses decinv
+//@   ensures r != nil && fresh(r) && BIG[r] == pow10(18)
+//@
+//@ func ZeroDec() (r Dec)
+//@   props C18
+//@   uses decinv
+//@   ensures r.Int != nil && fresh(r.Int) && val(r) == 0
+//@
+//@ func OneDec() (r Dec)
+//@   props C18
+//@   uses decinv
+//@   ensures r.Int != nil && fresh(r.Int) && val(r) == pow10(18)
+//@
+//@ func SmallestDec() (r Dec)
+//@   props C18
+//@   uses decinv
+//@   ensures r.Int != nil && fresh(r.Int) && val(r) == 1
+//@
+//@ func calcPrecisionMultiplier(prec int64) (r *big.Int)
+//@   props C18
+//@   uses decinv
+//@   requires prec >= 0 - 59
+//@   panics string when prec > 18
+//@   ensures r != nil && fresh(r) && BIG[r] == pow10f(18 - prec)
+//@
+//@ func precisionMultiplier(prec int64) (r *big.Int)
+//@   props C18
+//@   uses decinv
+//@   requires prec >= 0
+//@   panics string when prec > 18
+//@   ensures r != nil && BIG[r] == pow10f(18 - prec) && r == precisionMultipliers[prec]
+//@
+//@ func NewDec(i int64) (r Dec)
+//@   props C18
+//@   uses decinv
+//@   ensures r.Int != nil && fresh(r.Int) && val(r) == i * pow10(18)
+//@
+//@ func NewDecWithPrec(i, prec int64) (r Dec)
+//@   props C18
+//@   uses decinv
+//@   requires prec >= 0
+//@   panics string when prec > 18
+//@   ensures r.Int != nil && fresh(r.Int) && val(r) == i * pow10f(18 - prec)
+//@
+//@ func NewDecFromBigInt(i *big.Int) (r Dec)
+//@   props C18
+//@   uses decinv
+//@   requires i != nil
+//@   ensures r.Int != nil && fresh(r.Int) && val(r) == BIG[i] * pow10(18)
+//@
+//@ func NewDecFromBigIntWithPrec(i *big.Int, prec int64) (r Dec)
+//@   props C18
+//@   uses decinv
+//@   requires i != nil && prec >= 0
+//@   panics string when prec > 18
+//@   ensures r.Int != nil && fresh(r.Int) && val(r) == BIG[i] * pow10f(18 - prec)
+//@
+//@ func NewDecFromInt(i Int) (r Dec)
+//@   props C18
+//@   uses decinv
+//@   requires i.i != nil
+//@   ensures r.Int != nil && fresh(r.Int) && val(r) == val(i) * pow10(18)
+//@
+//@ func NewDecFromIntWithPrec(i Int, prec int64) (r Dec)
+//@   props C18
+//@   uses decinv
+//@   requires i.i != nil && prec >= 0
+//@   panics string when prec > 18
+//@   ensures r.Int != nil && fresh(r.Int) && val(r) == val(i) * pow10f(18 - prec)
+//@
+//@ func (d Dec) IsZero() (r bool)
+//@   props C18
+//@   requires d.Int != nil
+//@   ensures r == (val(d) == 0)
+//@
+//@ func (d Dec) IsNegative() (r bool)
+//@   props C18
+//@   requires d.Int != nil
+//@   ensures r == (val(d) < 0)
+//@
+//@ func (d Dec) IsPositive() (r bool)
+//@   props C18
+//@   requires d.Int != nil
+//@   ensures r == (val(d) > 0)
+//@
+//@ func (d Dec) Equal(d2 Dec) (r bool)
+//@   props C18
+//@   requires d.Int != nil && d2.Int != nil
+//@   ensures r == (val(d) == val(d2))
+//@
+//@ func (d Dec) GT(d2 Dec) (r bool)
+//@   props C18
+//@   requires d.Int != nil && d2.Int != nil
+//@   ensures r == (val(d) > val(d2))
+//@
+//@ func (d Dec) GTE(d2 Dec) (r bool)
+//@   props C18
+//@   requires d.Int != nil && d2.Int != nil
+//@   ensures r == (val(d) >= val(d2))
+//@
+//@ func (d Dec) LT(d2 Dec) (r bool)
+//@   props C18
+//@   requires d.Int != nil && d2.Int != nil
+//@   ensures r == (val(d) < val(d2))
+//@
+//@ func (d Dec) LTE(d2 Dec) (r bool)
+//@   props C18
+//@   requires d.Int != nil && d2.Int != nil
+//@   ensures r == (val(d) <= val(d2))
+//@
+//@ func (d Dec) Neg() (r Dec)
+//@   props C18
+//@   requires d.Int != nil
+//@   ensures r.Int != nil && fresh(r.Int) && val(r) == 0 - val(d)
+//@
+//@ func (d Dec) Abs() (r Dec)
+//@   props C18
+//@   requires d.Int != nil
+//@   ensures r.Int != nil && fresh(r.Int) && val(r) == abs(val(d))
+//@
+//@ func (d Dec) Add(d2 Dec) (r Dec)
+//@   props C18
+//@   requires d.Int != nil && d2.Int != nil
+//@   panics string when abs(val(d) + val(d2)) >= pow2(315)
+//@   ensures r.Int != nil && fresh(r.Int) && val(r) == val(d) + val(d2)
+//@
+//@ func (d Dec) Sub(d2 Dec) (r Dec)
+//@   props C18
+//@   requires d.Int != nil && d2.Int != nil
+//@   panics string when abs(val(d) - val(d2)) >= pow2(315)
+//@   ensures r.Int != nil && fresh(r.Int) && val(r) == val(d) - val(d2)
+//@
+//@ func chopPrecisionAndRound(d *big.Int) (r *big.Int)
+//@   props C18
+//@   uses decinv
+//@   requires d != nil && d != precisionReuse && d != fivePrecision && d != oneInt && d != zeroInt && d != tenInt
+//@   requires forall k int :: 0 <= k && k <= 18 ==> d != precisionMultipliers[k]
+//@   modifies BIG[d]
+//@   ensures r == d && BIG[d] == rhe(old(BIG[d]), pow10(18))
+//@
+//@ func chopPrecisionAndRoundUp(d *big.Int) (r *big.Int)
+//@   props C18
+//@   uses decinv
+//@   requires d != nil && d != precisionReuse && d != fivePrecision && d != oneInt && d != zeroInt && d != tenInt
+//@   requires forall k int :: 0 <= k && k <= 18 ==> d != precisionMultipliers[k]
+//@   modifies BIG[d]
+//@   ensures r == d && BIG[d] == rceil(old(BIG[d]), pow10(18))
+//@
+//@ func chopPrecisionAndTruncate(d *big.Int) (r *big.Int)
+//@   props C18
+//@   uses decinv
+//@   requires d != nil && d != precisionReuse && d != fivePrecision && d != oneInt && d != zeroInt && d != tenInt
+//@   requires forall k int :: 0 <= k && k <= 18 ==> d != precisionMultipliers[k]
+//@   modifies BIG[d]
+//@   ensures r == d && BIG[d] == old(BIG[d]) / pow10(18)
+//@
+//@ func chopPrecisionAndRoundNonMutative(d *big.Int) (r *big.Int)
+//@   props C18
+//@   uses decinv
+//@   requires d != nil
+//@   ensures r != nil && fresh(r) && BIG[r] == rhe(BIG[d], pow10(18))
+//@
+//@ func chopPrecisionAndTruncateNonMutative(d *big.Int) (r *big.Int)
+//@   props C18
+//@   uses decinv
+//@   requires d != nil
+//@   ensures r != nil && fresh(r) && BIG[r] == BIG[d] / pow10(18)
+//@
+//@ func (d Dec) Mul(d2 Dec) (r Dec)
+//@   props C18
+//@   uses decinv
+//@   requires d.Int != nil && d2.Int != nil
+//@   panics string when abs(rhe(val(d) * val(d2), pow10(18))) >= pow2(315)
+//@   ensures r.Int != nil && fresh(r.Int) && val(r) == rhe(val(d) * val(d2), pow10(18))
+//@
+//@ func (d Dec) MulTruncate(d2 Dec) (r Dec)
+//@   props C18
+//@   uses decinv
+//@   requires d.Int != nil && d2.Int != nil
+//@   panics string when abs((val(d) * val(d2)) / pow10(18)) >= pow2(315)
+//@   ensures r.Int != nil && fresh(r.Int) && val(r) == (val(d) * val(d2)) / pow10(18)
+//@
+//@ func (d Dec) MulInt(i Int) (r Dec)
+//@   props C18
+//@   requires d.Int != nil && i.i != nil
+//@   panics string when abs(val(d) * val(i)) >= pow2(315)
+//@   ensures r.Int != nil && fresh(r.Int) && val(r) == val(d) * val(i)
+//@
+//@ func (d Dec) MulInt64(i int64) (r Dec)
+//@   props C18
+//@   requires d.Int != nil
+//@   panics string when abs(val(d) * i) >= pow2(315)
+//@   ensures r.Int != nil && fresh(r.Int) && val(r) == val(d) * i
+//@
+// Quo and QuoRoundUp: the postcondition is the as-implemented value; that it equals the rounding
+// of the exact rational (what C18 demands) is the family of lemmas quo_exact_* / quoroundup_exact_*
+// in /verif/spec/lemmas/C18_dec.txt.
+//@ func (d Dec) Quo(d2 Dec) (r Dec)
+//@   props C18
+//@   uses decinv
+//@   requires d.Int != nil && d2.Int != nil
+//@   panics when val(d2) == 0
+//@   panics string when val(d2) != 0 && abs(rhe((val(d) * pow10(36)) / val(d2), pow10(18))) >= pow2(315)
+//@   ensures [asimpl] r.Int != nil && fresh(r.Int) && val(r) == rhe((val(d) * pow10(36)) / val(d2), pow10(18))
+//@
+//@ func (d Dec) QuoTruncate(d2 Dec) (r Dec)
+//@   props C18
+//@   uses decinv quotrunc_exact
+//@   requires d.Int != nil && d2.Int != nil
+//@   panics when val(d2) == 0
+//@   panics string when val(d2) != 0 && abs(((val(d) * pow10(36)) / val(d2)) / pow10(18)) >= pow2(315)
+//@   ensures [asimpl] r.Int != nil && fresh(r.Int) && val(r) == ((val(d) * pow10(36)) / val(d2)) / pow10(18)
+//@   ensures [exact] val(r) == (val(d) * pow10(18)) / val(d2)
+//@
+//@ func (d Dec) QuoRoundUp(d2 Dec) (r Dec)
+//@   props C18
+//@   uses decinv
+//@   requires d.Int != nil && d2.Int != nil
+//@   panics when val(d2) == 0
+//@   panics string when val(d2) != 0 && abs(rceil((val(d) * pow10(36)) / val(d2), pow10(18))) >= pow2(315)
+//@   ensures [asimpl] r.Int != nil && fresh(r.Int) && val(r) == rceil((val(d) * pow10(36)) / val(d2), pow10(18))
+//@
+//@ func (d Dec) QuoInt(i Int) (r Dec)
+//@   props C18
+//@   requires d.Int != nil && i.i != nil
+//@   panics when val(i) == 0
+//@   ensures r.Int != nil && fresh(r.Int) && val(r) == val(d) / val(i)
+//@
+//@ func (d Dec) QuoInt64(i int64) (r Dec)
+//@   props C18
+//@   requires d.Int != nil
+//@   panics when i == 0
+//@   ensures r.Int != nil && fresh(r.Int) && val(r) == val(d) / i
+//@
+//@ func (d Dec) IsInteger() (r bool)
+//@   props C18
+//@   uses decinv
+//@   requires d.Int != nil
+//@   ensures r == (val(d) % pow10(18) == 0)
+//@
+//@ func (d Dec) RoundInt64() (r int64)
+//@   props C18
+//@   uses decinv
+//@   requires d.Int != nil
+//@   panics string when rhe(val(d), pow10(18)) < 0 - 9223372036854775808 || rhe(val(d), pow10(18)) > 9223372036854775807
+//@   ensures r == rhe(val(d), pow10(18))
+//@
+//@ func (d Dec) RoundInt() (r Int)
+//@   props C18
+//@   uses decinv
+//@   requires d.Int != nil
+//@   panics string when abs(rhe(val(d), pow10(18))) >= pow2(255)
+//@   ensures r.i != nil && fresh(r.i) && val(r) == rhe(val(d), pow10(18))
+//@
+//@ func (d Dec) TruncateInt64() (r int64)
+//@   props C18
+//@   uses decinv
+//@   requires d.Int != nil
+//@   panics string when val(d) / pow10(18) < 0 - 9223372036854775808 || val(d) / pow10(18) > 9223372036854775807
+//@   ensures r == val(d) / pow10(18)
+//@
+//@ func (d Dec) TruncateInt() (r Int)
+//@   props C18
+//@   uses decinv
+//@   requires d.Int != nil
+//@   panics string when abs(val(d) / pow10(18)) >= pow2(255)
+//@   ensures r.i != nil && fresh(r.i) && val(r) == val(d) / pow10(18)
+//@
+//@ func (d Dec) TruncateDec() (r Dec)
+//@   props C18
+//@   uses decinv
+//@   requires d.Int != nil
+//@   ensures r.Int != nil && fresh(r.Int) && val(r) == (val(d) / pow10(18)) * pow10(18)
+//@
+//@ func (d Dec) Ceil() (r Dec)
+//@   props C18
+//@   uses decinv
+//@   requires d.Int != nil
+//@   ensures r.Int != nil && fresh(r.Int) && val(r) == rceil(val(d), pow10(18)) * pow10(18)
